@@ -245,18 +245,14 @@ func ComplexArbitraryToFixedPointCRT(r *ring.Ring, values []*bignum.Complex, sca
 
 	moduli := r.ModuliChain()[:r.Level()+1]
 
-	var negative bool
-
 	for i := range values {
 
 		xFlo.Mul(scale, values[i][0])
 
 		if values[i][0].Cmp(zero) < 0 {
 			xFlo.Sub(xFlo, half)
-			negative = true
 		} else {
 			xFlo.Add(xFlo, half)
-			negative = false
 		}
 
 		xFlo.Int(xInt)
@@ -265,11 +261,8 @@ func ComplexArbitraryToFixedPointCRT(r *ring.Ring, values []*bignum.Complex, sca
 
 			Q := bignum.NewInt(moduli[j])
 
+			// big.Int.Mod is the Euclidean modulus: the residue already lies in [0, Q).
 			tmp.Mod(xInt, Q)
-
-			if negative {
-				tmp.Add(tmp, Q)
-			}
 
 			coeffs[j][i] = tmp.Uint64()
 		}
@@ -285,10 +278,8 @@ func ComplexArbitraryToFixedPointCRT(r *ring.Ring, values []*bignum.Complex, sca
 
 			if values[i][1].Cmp(zero) < 0 {
 				xFlo.Sub(xFlo, half)
-				negative = true
 			} else {
 				xFlo.Add(xFlo, half)
-				negative = false
 			}
 
 			xFlo.Int(xInt)
@@ -297,11 +288,9 @@ func ComplexArbitraryToFixedPointCRT(r *ring.Ring, values []*bignum.Complex, sca
 
 				Q := bignum.NewInt(moduli[j])
 
+				// big.Int.Mod is the Euclidean modulus: the residue already lies in [0, Q).
 				tmp.Mod(xInt, Q)
 
-				if negative {
-					tmp.Add(tmp, Q)
-				}
 				coeffs[j][i+slots] = tmp.Uint64()
 			}
 		}
@@ -344,11 +333,8 @@ func BigFloatToFixedPointCRT(r *ring.Ring, values []*big.Float, scale *big.Float
 
 				Q := bignum.NewInt(moduli[j])
 
+				// big.Int.Mod is the Euclidean modulus: the residue already lies in [0, Q).
 				tmp.Mod(xInt, Q)
-
-				if values[i].Cmp(zero) < 0 {
-					tmp.Add(tmp, Q)
-				}
 
 				coeffs[j][i] = tmp.Uint64()
 			}
